@@ -5,7 +5,13 @@ Line protocol of engine `aggregation` (one case per line, the whole operation se
   request: `<pipeline> <tok> <tok> …`
   input   `<endpoint hex|->:<shard>:<bytes>:<last>:<obs v*c+v*c…|->:<opt|->:<inner>`
 
-  pipeline `keyed`    toks `m=<input>` (merge) `r=<input>` (merge_ref) `f` (flush)
+  A merge-on-drop guard is created by `g…=<input>` (`CloseAndMergeOnDrop`) or `h…=<input>` (`MergeOnDrop`)
+  and goes out of scope by `d<g>` (plain drop), `u<g>` (dropped by an unwinding panic that is caught on
+  the same thread) or `j<g>` (by an unwinding panic on a spawned thread that is joined). In the model a
+  guard drop is ONE event — the merge of its entry — whatever its kind and whatever caused the drop.
+
+  pipeline `keyed`    toks `m=<input>` (merge) `r=<input>` (merge_ref) `f` (flush) and guards `g=`/`h=`, `d/u/j<g>`
+                      over a `RootSink` in front of the aggregator
            `tee`      toks `m=<input>` `f`            (A keyed by (endpoint, shard), B by endpoint, C raw)
            `embedded` toks `i=<input>` `t=<input>` `m=<input>` `r=<input>`   (key-less `Aggregate<T>`)
            `mutex`    toks `g=<input>` (guard) `d<g>` (drop guard) `m=<input>`; remaining guards dropped in order at the end
@@ -99,6 +105,29 @@ def splitTok (t : String) : Option (String × Input) :=
   | [tag, inp] => (parseInput inp).map fun e => (tag, e)
   | _ => none
 
+/-! ### merge-on-drop guards: a drop is a merge, whatever its cause -/
+
+def isDropTok (t : String) : Bool :=
+  (t.startsWith "d" || t.startsWith "u" || t.startsWith "j") && ((t.drop 1).toNat?).isSome
+
+/-- replaces guard creation / drop tokens of the sequential pipelines by the merge they amount to
+(`m=<input>` at the point of the drop); guards alive at the end are dropped in order -/
+def resolveGuards : List String → List (Option String) → List String → Option (List String)
+  | [], guards, out => some (out ++ (guards.filterMap id).map ("m=" ++ ·))
+  | t :: ts, guards, out =>
+    if isDropTok t then
+      match (t.drop 1).toNat? with
+      | none => none
+      | some g =>
+        match guards[g]? with
+        | some (some inp) => resolveGuards ts (guards.set g none) (out ++ ["m=" ++ inp])
+        | _ => resolveGuards ts guards out          -- dead / unknown guard: skipped
+    else match t.splitOn "=" with
+      | [tag, inp] =>
+        if tag == "g" || tag == "h" then resolveGuards ts (guards ++ [some inp]) out
+        else resolveGuards ts guards (out ++ [t])
+      | _ => resolveGuards ts guards (out ++ [t])
+
 /-! ### keyed / tee -/
 
 def parseKOp (allowRef : Bool) (t : String) : Option (Op Input) :=
@@ -111,7 +140,7 @@ def parseKOp (allowRef : Bool) (t : String) : Option (Op Input) :=
 def keyA (e : Input) : Key := e.key
 
 def handleKeyed (toks : List String) : String :=
-  match toks.mapM (parseKOp true) with
+  match (resolveGuards toks [] []).bind fun ts => ts.mapM (parseKOp true) with
   | none => "bad-op"
   | some ops =>
     let r := krun callStrat keyA {} ops
@@ -149,24 +178,12 @@ def handleEmbedded (toks : List String) : String :=
     let raw := (l.filter (·.2)).map fun p => s!"-:-:{p.1.bytes}"
     s!"{showClosed "-" "-" (close a)} | raw={if raw.isEmpty then "-" else ";".intercalate raw}"
 
-/-- guards: `some e` while alive -/
-def handleMutexGo : List String → List (Option Input) → List Input → Option (List Input)
-  | [], guards, merged => some (merged ++ guards.filterMap id)
-  | t :: ts, guards, merged =>
-    if t.startsWith "d" then
-      match (t.drop 1).toNat? with
-      | none => none
-      | some g =>
-        match guards[g]? with
-        | some (some e) => handleMutexGo ts (guards.set g none) (merged ++ [e])
-        | _ => handleMutexGo ts guards merged          -- dead / unknown guard: skipped
-    else match splitTok t with
-      | some ("g", e) => handleMutexGo ts (guards ++ [some e]) merged
-      | some ("m", e) => handleMutexGo ts guards (merged ++ [e])
-      | _ => none
-
 def handleMutex (toks : List String) : String :=
-  match handleMutexGo toks [] [] with
+  let merged := (resolveGuards toks [] []).bind fun ts => ts.mapM fun t =>
+    match splitTok t with
+    | some ("m", e) => some e
+    | _ => none
+  match merged with
   | none => "bad-op"
   | some merged => showClosed "-" "-" (close (embedded callStrat merged))
 
@@ -219,7 +236,8 @@ def wtok (d : WDrv) (t : String) : WDrv :=
     match parseIdx t with
     | none => { d with bad := true }
     | some h => if alive d.handles h then { d.events [.dropHandle] with handles := d.handles.set h false } else d
-  else if t.startsWith "d" then
+  else if t.startsWith "d" || t.startsWith "u" || t.startsWith "j" then
+    -- a guard going out of scope (plain drop / unwinding, here or on a joined thread): send, drop its handle
     match parseIdx t with
     | none => { d with bad := true }
     | some g =>
@@ -231,7 +249,7 @@ def wtok (d : WDrv) (t : String) : WDrv :=
       match parseInput inp, (tag.drop 1).toNat? with
       | some e, some h =>
         if tag.startsWith "s" then (if alive d.handles h then d.events [.send e] else d)
-        else if tag.startsWith "g" then
+        else if tag.startsWith "g" || tag.startsWith "h" then
           (if alive d.handles h then { d.events [.clone] with guards := d.guards ++ [some e] } else d)
         else { d with bad := true }
       | _, _ => { d with bad := true }
